@@ -251,3 +251,225 @@ class C19(QueryFamily):
         d['falsy_field_values'] += falsy
         d['selected_expressions'] += sum(1 for t in case['sel'] if t[0] == 'map')
         return d
+
+
+class C06(QueryFamily):
+    pid = 'C06'
+    ordered = True
+    rule = ("1-2 variables, all selected, quantifier `the` over entity / set_of descriptions with small domains so that 0, 1 and >= 2 "
+            "satisfying assignments are all frequent (partition reported in the distribution); outcome = the row | MultipleSolutionFound | "
+            "NoSolutionFound, first evaluation and re-evaluation, cache off and on; non-trivial = exactly one or at least two solutions")
+    explanation = ("C06_the_* are proved from C02_all_selected (each satisfying assignment exactly once) and the model of The._evaluate_ "
+                   "(consume, fail on the second row, fail if none); tie = outcome enum and value against the model")
+
+    def to_coq(self, n, case):
+        return f"Eval vm_compute in (run_qcase_the {n} {coq_qcase(case)})."
+
+    def gen(self, rng, i, tier):
+        return gen_query.gen_case_the(rng, tier)
+
+    def view(self, case, rows, strict):
+        return rows.strip()
+
+    def canon(self, case, io):
+        return io['off'].strip(), tuple(io[k].strip() for k in self.observed())
+
+    def tie_view(self, case, mo):
+        return mo.strip()
+
+    def prop_view(self, case, so):
+        return tuple(so.strip() for _ in self.observed())
+
+    def nontrivial(self, case, io):
+        return not io['off'].startswith('X NoSolution')
+
+    def stats(self, case, io):
+        d = collections.Counter()
+        o = io['off']
+        d['solutions_0' if 'NoSolution' in o else 'solutions_many' if 'Multiple' in o else 'solutions_1' if o.startswith('R') else 'other_' + o] += 1
+        d['form_' + case.get('form', 'set_of')] += 1
+        d['vars_%d' % len(case['doms'])] += 1
+        return d
+
+
+class C10(QueryFamily):
+    pid = 'C10'
+    rule = ("1-2 free variables and one universal variable (own non-empty domain of 1-3 objects); for_all(u, c) with c mentioning the "
+            "universal variable, the free variables, both or neither, alone or combined by and_ on either side; rows compared as sets; "
+            "non-trivial = some but not all bindings of the free variables qualify")
+    explanation = ("the P-model mirrors ForAll._evaluate__ (one pass per universal value, intersection of the satisfying rows); C10 theorems "
+                   "state the intersection lemma and the quantified reading; tie = row sets against the model")
+
+    def gen(self, rng, i, tier):
+        return gen_query.gen_case_forall(rng, tier)
+
+
+class C15(QueryFamily):
+    pid = 'C15'
+    rule = ("1-3 variables; random sub-conditions of a random condition are wrapped as an(entity(v, c)) / an(set_of(vs, c)) and combined "
+            "with & and | with other sub-queries or plain conditions; the specification reads every sub-query as its inlined condition; "
+            "non-trivial = some but not all assignments qualify and at least one sub-query is present")
+    explanation = ("C15_inline: a nested An(Entity/SetOf) node means what its condition means (sat / isat are defined so and the partition "
+                   "invariant eval_cover covers CSub), hence by C02 the composed and the inlined query return the same row set; tie = rows "
+                   "against the model")
+
+    def gen(self, rng, i, tier):
+        return gen_query.gen_case_sub(rng, tier)
+
+    def nontrivial(self, case, io):
+        return super().nontrivial(case, io) and 'sub' in cond_ops(case['cond'], {})
+
+
+class C16(QueryFamily):
+    pid = 'C16'
+    rule = ("one parent variable over 1-4 parents whose inner collections have different lengths (empty, overlapping, repeated elements) or "
+            "are scalars; flatten(parent.collection) selected alone, after or before the parent; no condition, a condition on the element, "
+            "on parent and element, a disjunction, a membership test; rows compared as MULTISETS of (parent, element); non-trivial = at "
+            "least two rows")
+    explanation = ("C16 theorems: unnest without condition / with a condition on the element (direct structural proofs on the P-model); tie = "
+                   "exact row sequences against the model")
+
+    def gen(self, rng, i, tier):
+        return gen_query.gen_case_flat(rng, tier)
+
+    def nontrivial(self, case, io):
+        rows = parse_rows(io['off'])
+        return not isinstance(rows, str) and len(rows) >= 2
+
+
+class C17(QueryFamily):
+    pid = 'C17'
+    ordered = True
+    rule = ("concatenate(parent.collection) over 0-4 parents (empty, overlapping, repeated elements, scalars, all-empty, no parent) selected "
+            "alone (one row: the list, compared as a sequence) or tested for membership / non-membership by an outer variable; non-trivial = "
+            "the list has at least two elements or the membership query returns some but not all outer values")
+    explanation = ("C17 theorems: the single row carries the concatenation in domain order and inner order; membership selects exactly the "
+                   "members; tie = the list value / the row sequence against the model")
+
+    def gen(self, rng, i, tier):
+        return gen_query.gen_case_concat(rng, tier)
+
+    def nontrivial(self, case, io):
+        rows = parse_rows(io['off'])
+        if isinstance(rows, str) or not rows:
+            return False
+        if case['sel'][0][0] == 'concat':
+            return rows[0].count(',') >= 1
+        return len(rows) < len(case['doms'][-1][1])
+
+
+def unpermute(rows, perm):
+    """rows of the variant (selection order permuted) back in the selection order of the original"""
+    out = []
+    for r in rows:
+        cols = split_row(r)
+        o = [None] * len(cols)
+        for j, c in enumerate(cols):
+            o[perm[j]] = c
+        out.append(','.join(o))
+    return out
+
+
+def split_row(r):
+    """split a printed row at top-level commas (tuples are printed in parentheses)"""
+    cols, depth, cur = [], 0, ''
+    for ch in r:
+        if ch == '(':
+            depth += 1
+        elif ch == ')':
+            depth -= 1
+        if ch == ',' and depth == 0:
+            cols.append(cur)
+            cur = ''
+        else:
+            cur += ch
+    cols.append(cur)
+    return cols
+
+
+class C18(QueryFamily):
+    pid = 'C18'
+    rule = ("a random query (1-3 variables, depth <= 3) and a variant obtained by a random composition of the listed rewrites: operands of "
+            "and_/or_ swapped, chains re-associated or flattened (and_(a,b,c), a & (b & c), several conditions passed to the descriptor), "
+            "comparisons mirrored (literal on either side), contains vs in_, variables declared and selected in another order, every domain "
+            "permuted; the rows of both are compared with each other and with the specification of the ORIGINAL, as sets; non-trivial = "
+            "some but not all assignments qualify and the variant differs from the original")
+    explanation = ("C18_rewrite_sat (truth is invariant under every composition of the rewrites), C18_invariant / C18_domain_permutation (so "
+                   "is the result set, via C02); tie = rows of the variant against the model run on the variant")
+
+    def gen(self, rng, i, tier):
+        return gen_query.gen_pair(rng, tier)
+
+    def to_coq(self, n, case):
+        return f"Eval vm_compute in (run_qpair {n} {coq_qcase(case['orig'])} {coq_qcase(case['variant'])})."
+
+    def rows_set(self, case, s, which):
+        rows = parse_rows(s)
+        if isinstance(rows, str):
+            return rows
+        if which == 'variant':
+            rows = unpermute(rows, case['perm'])
+        return sorted(set(rows))
+
+    def canon(self, case, io):
+        v = case['variant']
+        rows = parse_rows(io['variant']['off'])
+        tie = rows if isinstance(rows, str) else (('seq', rows) if all_selected(v) else ('set', sorted(set(rows))))
+        prop = tuple(self.rows_set(case, io[w][k], w) for w in ('orig', 'variant') for k in self.observed())
+        return tie, prop
+
+    def tie_view(self, case, mo):
+        rows = parse_rows(mo)
+        if isinstance(rows, str):
+            return rows
+        return ('seq', rows) if all_selected(case['variant']) else ('set', sorted(set(rows)))
+
+    def prop_view(self, case, so):
+        s = self.rows_set(case, so, 'orig')
+        return tuple(s for _ in range(2 * len(self.observed())))
+
+    def known(self, case, io, mo, so):
+        spec = self.rows_set(case, so, 'orig')
+        ok_off = all(self.rows_set(case, io[w][k], w) == spec for w in ('orig', 'variant') for k in ('off', 'off2'))
+        if ok_off and any(io[w].get('mixed_level_retrieval') for w in ('orig', 'variant')):
+            return 'C05-wildcard-retrieval'
+        return None
+
+    def nontrivial(self, case, io):
+        return QueryFamily.nontrivial(self, case['orig'], io['orig']) and case['orig']['cond'] != case['variant']['cond']
+
+    def stats(self, case, io):
+        d = QueryFamily.stats(self, case['orig'], io['orig'])
+        d['variant_differs'] += 1 if case['orig']['cond'] != case['variant']['cond'] else 0
+        return d
+
+    def shrink(self, case):
+        return []
+
+
+class C05(QueryFamily):
+    pid = 'C05'
+    rule = ("a mixture of every query shape of the family (joins over 1-3 variables with projections, disjunctions over equal and different "
+            "variable sets, negation, for_all, nested sub-queries, flatten, concatenate); each case is evaluated twice with caching "
+            "disabled and twice with caching enabled on fresh query objects; row sets (row multisets when all variables are selected) of "
+            "all four runs must agree with each other and with the specification; the distribution reports how many cached runs actually "
+            "took the cached path (retrieval count); non-trivial = some rows and at least one cache retrieval")
+    explanation = ("C05_memo_transparent_partial is proved for the abstract memo; the concrete index is C20; the cached path of symbolic.py is "
+                   "tied by correspondence only (stated in the level note); tie = caching-disabled rows against the P-model")
+
+    def gen(self, rng, i, tier):
+        r = rng.random()
+        if r < 0.5:
+            return gen_query.gen_case(rng, nvars=rng.choice([1, 2, 2, 3, 3]), falsy=True, neg=True, maxdepth=3,
+                                      select=rng.choice(['all', 'some']), dom_max=4)
+        if r < 0.65:
+            return gen_query.gen_case_forall(rng, tier)
+        if r < 0.8:
+            return gen_query.gen_case_sub(rng, tier)
+        if r < 0.92:
+            return gen_query.gen_case_flat(rng, tier)
+        return gen_query.gen_case_concat(rng, tier)
+
+    def nontrivial(self, case, io):
+        rows = parse_rows(io['off'])
+        return not isinstance(rows, str) and len(rows) > 0 and io.get('cache_retrievals', 0) > 0
